@@ -69,7 +69,7 @@ def tla_lit(v):
 
 SER_PSETS_QUICK = ["bfv_8_17_20,60,30", "bgv_8_17_33,41,50", "ckks_8_0_25,50,40"]
 SER_PSETS_THOROUGH = SER_PSETS_QUICK + ["bfv_16_97_8,16,24,32,40,48,56,60", "bgv_4_17_60,60,60", "ckks_16_0_60,20,30,60", "bfv_8_17_50,50,50,50",
-                                        "bgv_8_17_17,23,31,61", "ckks_4_0_30,30,30"]
+                                        "bgv_8_17_17,23,31,60", "ckks_4_0_30,30,30"]
 
 
 def check_c14(rep):
@@ -315,7 +315,8 @@ def check_c13(rep):
     quick = rep.tier == "quick"
     wd = workdir("C13")
     # universe enumerated by TLC (Params!Build); every number stays far below 2^31
-    moduli = [3, 5, 13, 15, 17, 97, 193] if quick else [2, 3, 4, 5, 13, 15, 17, 41, 65, 97, 113, 193, 257, 12289]
+    # (thorough: every product of three moduli must stay below 2^31 - native TLC integers)
+    moduli = [3, 5, 13, 15, 17, 97, 193] if quick else [2, 3, 4, 5, 13, 15, 17, 41, 65, 97, 113, 193, 257, 769]
     degrees = [0, 2, 3, 8] if quick else [0, 1, 2, 3, 4, 8, 16, 1024]
     plain = [0, 1, 17, 34, 73, 257] if quick else [0, 1, 2, 16, 17, 34, 41, 73, 97, 257, 12289]
     maxlen = 2 if quick else 3
